@@ -464,34 +464,58 @@ def c20_3(ck, prog):
                     continue
                 r.violation('dispatch:found-flag-rewritten', d.name, CONN, ev['line'],
                             'the found-object flag is overwritten (%s) outside the object tree' % how)
-    errs = [c for b, i, c in d.calls('dbus_message_new_error')]
+    errs = {c['id'] for b, i, c in d.calls('dbus_message_new_error')}
     if not errs:
         raise AnalysisBroken('dbus_connection_dispatch: no dbus_message_new_error call')
-    defs = single_defs(d)
-    nsel = 0
-    for c in errs:
-        name = c['args'][1] if len(c['args']) > 1 else None
-        if is_ref(name) and name.get('id') in defs:
-            name = defs[name['id']]
-        if not any(is_ref(x) and x.get('id') == fid for x in walk(name)):
+    want = {True: 'org.freedesktop.DBus.Error.UnknownMethod', False: 'org.freedesktop.DBus.Error.UnknownObject'}
+    names = set()
+    for b, i, c in d.calls('dbus_message_new_error'):
+        if len(c['args']) > 1 and is_ref(c['args'][1]):
+            names.add(c['args'][1]['name'])
+    seen = {}
+
+    def akey(atom, resolve):
+        if atom[0] == 'truthy' and is_ref(atom[1]) and atom[1].get('id') == fid:
+            return 'found'
+        return None
+
+    def on_event(user, ev, ctx):
+        if ev['ev'] == 'call' and ev['e']['id'] in errs:
+            c = ev['e']
+            found = ctx.atom('found')
+            name = c['args'][1] if len(c['args']) > 1 else None
+            got = None
             if name is not None and name.get('k') == 'str':
-                r.violation('dispatch:error-selection', d.name, CONN, c['line'],
-                            'the automatic error is always %s, whatever the object tree found' % name['v'])
-                nsel += 1
-            continue
-        nsel += 1
-        got = {}
-        for fval in (0, 1):
-            got[fval] = sel_str(name, lambda x, fval=fval: fval if (is_ref(x) and x.get('id') == fid) else None)
-        want = {1: 'org.freedesktop.DBus.Error.UnknownMethod', 0: 'org.freedesktop.DBus.Error.UnknownObject'}
-        if got == want:
-            r.ok('dispatch:error-selection', {'table': got})
-        else:
-            r.violation('dispatch:error-selection', d.name, CONN, c['line'],
-                        'error name chosen: object found -> %s, not found -> %s; the specified choice is '
-                        'UnknownMethod / UnknownObject' % (got[1], got[0]))
-    if not nsel:
-        raise AnalysisBroken('dbus_connection_dispatch: error-name selection not recognised')
+                got = name['v']
+            elif name is not None and name.get('k') == 'cond':
+                got = sel_str(name, lambda x: (None if found is None else int(found))
+                              if (is_ref(x) and x.get('id') == fid) else None)
+            elif is_ref(name):
+                v = ctx.var(name)
+                if v and v[0] == 'nz' and len(v) > 1:
+                    got = v[1]
+            if found is None and name is not None and name.get('k') == 'str':
+                ctx.report('the automatic error is %s whatever the object tree found' % got, c['line'],
+                           key=('constant', c['line']))
+            elif found is None or got is None:
+                ctx.report('cannot relate the error name %s to the found-object flag on this path' % estr(name),
+                           c['line'], key=('undecided', c['line']))
+            else:
+                seen[found] = got
+                if got != want[found]:
+                    ctx.report('object %s -> error name %s; the specified choice is %s' % (
+                        'found' if found else 'not found', got, want[found]), c['line'], key=('wrong', found))
+        return user
+    ex = Explorer(d, on_event=on_event, atom_key=akey, track=names or None, cap=600000).run()
+    if ex.reports:
+        bad = [k for k in ex.reports if k[0] == 'undecided']
+        if bad and len(bad) == len(ex.reports):
+            raise AnalysisBroken('dbus_connection_dispatch: error-name selection not recognised')
+        r.from_reports(ex.reports, keyfn=lambda k, rep: 'dispatch:error-selection')
+    elif set(seen) == {True, False}:
+        r.ok('dispatch:error-selection', {'table': {str(k): v for k, v in seen.items()}})
+    else:
+        raise AnalysisBroken('dbus_connection_dispatch: the error reply is not built for both answers of the tree')
 
 
 # ---------------------------------------------------------------------------
@@ -947,9 +971,19 @@ def c20_6(ck, prog):
     W = '_dbus_connection_register_object_path'
     w = prog.fn(W, CONN)
     rc = [c for b, i, c in w.calls('_dbus_object_tree_register')]
-    okw = len(rc) == 1 and is_ref(rc[0]['args'][1]) and rc[0]['args'][1].get('id') == param_id(w, 1)
-    (r.ok('wrapper:forwards-fallback') if okw else
-     r.violation('wrapper:forwards-fallback', W, CONN, w.line, 'the fallback argument is not forwarded unchanged'))
+    widx = None
+    if len(rc) == 1 and is_ref(rc[0]['args'][1]) and rc[0]['args'][1].get('kind') == 'param':
+        for k, prm in enumerate(w.params):
+            if prm['id'] == rc[0]['args'][1].get('id'):
+                widx = k
+    # ... and the other arguments go to their own places
+    okrest = len(rc) == 1 and is_member(rc[0]['args'][0], 'objects', 'DBusConnection') and \
+        all(is_ref(rc[0]['args'][k]) and rc[0]['args'][k].get('kind') == 'param' for k in (3, 4, 5))
+    if widx is not None and okrest:
+        r.ok('wrapper:forwards-fallback')
+    else:
+        r.violation('wrapper:forwards-fallback', W, CONN, w.line, 'the fallback argument is not forwarded unchanged')
+        return
     TABLE = {'dbus_connection_try_register_object_path': 0, 'dbus_connection_register_object_path': 0,
              'dbus_connection_try_register_fallback': 1, 'dbus_connection_register_fallback': 1}
     for name, flag in TABLE.items():
@@ -960,11 +994,11 @@ def c20_6(ck, prog):
             r.violation(key, name, CONN, pf.line, 'does not register through %s' % W)
             continue
         for c in cs:
-            if is_int(c['args'][1], flag):
+            if is_int(c['args'][widx], flag):
                 r.ok(key)
             else:
                 r.violation(key, name, CONN, c['line'], '%s passes fallback = %s; its contract is %s' % (
-                    name, estr(c['args'][1]), 'TRUE' if flag else 'FALSE'))
+                    name, estr(c['args'][widx]), 'TRUE' if flag else 'FALSE'))
 
 
 # ---------------------------------------------------------------------------
